@@ -1150,6 +1150,8 @@ class NLDFNumInt(_NLDFMixin, CiderNumInt):
         cond = cond or self.grids != grids
         cond = cond or self.mol != mol
         cond = cond or self.nldfgen.plan.nspin != nspin
+        # grids rebuilt in place (e.g. after grids.level = ...) get a new indexer
+        cond = cond or self.nldfgen.grids_indexer is not grids.grids_indexer
         if cond:
             self.nldfgen = self.nldf_init.initialize_nldf_generator(
                 mol, grids.grids_indexer, nspin
@@ -1168,6 +1170,8 @@ class NLDFNLOFNumInt(_NLDFMixin, _FLNumIntMixin, CiderNumInt):
         cond = cond or self.grids != grids
         cond = cond or self.mol != mol
         cond = cond or self.nldfgen.plan.nspin != nspin
+        # grids rebuilt in place (e.g. after grids.level = ...) get a new indexer
+        cond = cond or self.nldfgen.grids_indexer is not grids.grids_indexer
         if cond:
             self.nldfgen = self.nldf_init.initialize_nldf_generator(
                 mol, grids.grids_indexer, nspin
